@@ -1,0 +1,39 @@
+//go:build verif
+
+package streampool
+
+import "sort"
+
+// VerifPoolState is a copy of the pool's indexes for the simulator's oracles (build tag verif only).
+type VerifPoolState struct {
+	Streams  []uint32
+	ByPeer   map[string][]uint32
+	ByTag    map[string][]uint32
+	Tags     map[uint32][]string
+	QueueLen map[uint32]int
+	Opening  []string
+}
+
+// VerifState returns a snapshot of the pool's bookkeeping.
+func (s *streamPool) VerifState() VerifPoolState {
+	s.mu.Lock()
+	defer s.mu.Unlock()
+	st := VerifPoolState{ByPeer: map[string][]uint32{}, ByTag: map[string][]uint32{}, Tags: map[uint32][]string{}, QueueLen: map[uint32]int{}}
+	for id, x := range s.streams {
+		st.Streams = append(st.Streams, id)
+		st.Tags[id] = append([]string{}, x.tags...)
+		st.QueueLen[id] = x.queue.Len()
+	}
+	sort.Slice(st.Streams, func(i, j int) bool { return st.Streams[i] < st.Streams[j] })
+	for k, v := range s.streamIdsByPeer {
+		st.ByPeer[k] = append([]uint32{}, v...)
+	}
+	for k, v := range s.streamIdsByTag {
+		st.ByTag[k] = append([]uint32{}, v...)
+	}
+	for k := range s.opening {
+		st.Opening = append(st.Opening, k)
+	}
+	sort.Strings(st.Opening)
+	return st
+}
